@@ -209,9 +209,37 @@ def run(ctx):
                 hist["skip_reasons"][r] = hist["skip_reasons"].get(r, 0) + 1
             kinds = tuple(sorted({t["kind"] for t in blk["txs"]}))
             nontriv.add((c["ver"], kinds, bool(pb.get("skipped"))))
+    # ---------------------------------------------------------------- (d) bucket order on the real contract/system package
+    t0 = time.time()
+    rc, log, govbin = ctx.go_test_binary("contract/system", [os.path.join(vf.HARNESS, "engines/gov/zz_verif_gov_engine_test.go")], "gov.test", use_overlay=False)
+    if rc != 0:
+        raise RuntimeError("gov engine build failed:\n" + log[-3000:])
+    import g8gov as G
+    gscs = [json.load(open(os.path.join(ctx.verif, "corpus", "C15", "vpr_same_bucket.json")))]
+    gscs += [G.gen_scenario(ctx.rng, ver=2, nacc=5) for _ in range(10 if quick else 300)]
+    gin, gout = os.path.join(ctx.workdir, "gov.in"), os.path.join(ctx.workdir, "gov.out")
+    with open(gin, "w") as f:
+        for sc in gscs:
+            f.write(json.dumps(sc) + "\n")
+    rc, log = ctx.run_bin(govbin, ["-test.run", "TestVerifGovEngine"], env={"VERIF_IN": gin, "VERIF_OUT": gout, "VERIF_TMP": os.path.join(ctx.workdir, "tmp")})
+    if rc != 0:
+        raise RuntimeError("gov engine failed:\n" + log[-3000:])
+    nb = 0
+    for sc, l in zip(gscs, open(gout)):
+        o = json.loads(l)
+        if o.get("fatal"):
+            raise RuntimeError("gov engine: " + o["fatal"][:1500])
+        for k, d in enumerate(o["dumps"]):
+            nb += len(d["reload"]["b"] or [])
+            for w in G.vpr_buckets_sorted(d):
+                fails.append(("voting power bucket not ordered by account id: its stored bytes depend on the order of insertion", {"scenario": sc, "step": k - 1, "bucket": w}))
+            if d.get("panic"):
+                break
+    hist["vpr_buckets_checked"] = nb
+    phase["vpr_bucket_order"] = round(time.time() - t0, 1)
+
     # ---------------------------------------------------------------- real block executor vs governance model
     t0 = time.time()
-    import g8gov as G
     G.reset_names()
     items, ids = [], []
     for c, p in zip(cases, prods[0]):
